@@ -750,13 +750,40 @@ inline J plan_c03(uint64_t verif_seed, uint64_t index, int tier) {
         model::MLib m = gen::library(rm, cfg);
         isolate_region_tags(m, max_points);
         models.push(model::to_json(m));
-        J s = op("save_gds");
-        s.set("model", 0);
-        s.set("file", "/sim/g.gds");
-        s.set("max_points", (int64_t)max_points);
-        s.set("ts", random_ts(ro));
-        s.set("via", ro.chance(0.35) ? "writer" : "lib");
-        ops.push(s);
+        if (ro.chance(0.3)) {
+            // an incremental writer session over several turns, the clock moving in between: every
+            // structure must still carry the session's timestamp
+            J wo = op("writer_open");
+            wo.set("w", "S");
+            wo.set("file", "/sim/g.gds");
+            wo.set("model", 0);
+            wo.set("like_save", true);
+            wo.set("max_points", (int64_t)max_points);
+            wo.set("ts", random_ts(ro));
+            ops.push(wo);
+            for (size_t i = 0; i < m.cells.size(); i++) {
+                if (rsch.chance(0.5)) {
+                    J c = op("clock");
+                    c.set("add", rsch.range(1, 100000000));
+                    ops.push(c);
+                }
+                J wc = op("writer_cell");
+                wc.set("w", "S");
+                wc.set("cell", (int64_t)i);
+                ops.push(wc);
+            }
+            J wcl = op("writer_close");
+            wcl.set("w", "S");
+            ops.push(wcl);
+        } else {
+            J s = op("save_gds");
+            s.set("model", 0);
+            s.set("file", "/sim/g.gds");
+            s.set("max_points", (int64_t)max_points);
+            s.set("ts", random_ts(ro));
+            s.set("via", ro.chance(0.35) ? "writer" : "lib");
+            ops.push(s);
+        }
         J pc = op("peer_check");
         pc.set("file", "/sim/g.gds");
         J e = J::obj();
@@ -1157,7 +1184,13 @@ inline J plan_c02(uint64_t verif_seed, uint64_t index, int tier) {
     l.set("circle_tol", tol);
     l.set("keep", "L0");
     l.set("level_class", level == 0 ? 0 : 1);
-    if (rsch.chance(0.2)) l.set("tol", 1e-3 * (m.precision / m.unit));
+    if (rsch.chance(0.2)) {
+        l.set("tol", 1e-3 * (m.precision / m.unit));
+    } else if (rsch.chance(0.25)) {
+        // (never together with an explicit tolerance: that one is in units of the target unit)
+        static const double units[] = {1e-9, 1e-3, 2.5e-7, 1e-6};
+        l.set("unit", units[rsch.below(4)]);
+    }
     ops.push(l);
     int cycles = (int)rsch.range(0, tier ? 4 : 2);
     for (int i = 1; i <= cycles; i++) {
